@@ -226,3 +226,10 @@ Proof.
   destruct l as [|x r]; [reflexivity|]. unfold cyc_sum. cbn [map].
   change (T x :: map T r) with (map T (x :: r)). rewrite last_map, path_sum_map. reflexivity.
 Qed.
+
+Lemma last_app_ne {A} (l r : list A) d : r <> [] -> last (l ++ r) d = last r d.
+Proof.
+  intros H. induction l as [|x l IH]; [reflexivity|]. cbn [app].
+  destruct (l ++ r) eqn:E; [destruct l; [cbn in E; congruence| discriminate]|]. rewrite <- E in *. cbn [last].
+  rewrite E. rewrite <- E. exact IH.
+Qed.
